@@ -458,6 +458,10 @@ def run(ctx):
         common.borrow_rules(rep, lambda: c14.loaders(cfg, crate, rep), "C14.", "C11.load")
         check_spki(cfg, crate, rep)
         check_eq(cfg, crate, rep)
+        # "signatures that verify under the original public key": the signing routine computes each signature from the
+        # message with this key, into a buffer sized from the key itself
+        import c01
+        common.borrow_rules(rep, lambda: (c01.check_wrap(cfg, crate, rep), c01.check_sign_arms(cfg, crate, rep)), "C01.", "C11.sign")
         for fn in (EXPLICIT, EXPLICIT_DER):
             k = ("rcgen", fn, "call:panicking::panic_fmt")
             if fn in crate.bodies and k in c10.AUDIT and any(o == fn for o, c, t, b in c10.sites(crate) if c == "call:panicking::panic_fmt"):
